@@ -39,6 +39,8 @@ class AlphaVectorPolicy(ValueBasedTabularPOMDPPolicy):
         # one-step reward
         for s, s_prob in s_dist.items():
             for ns, ns_prob in self.pomdp.next_state_dist(s, a).items():
+                if ns_prob == 0:
+                    continue
                 r = self.pomdp.reward(s, a, ns)
                 aval += r*s_prob*ns_prob
 
